@@ -14,7 +14,8 @@ vars == <<kind, exprs, wop, wlit, style, lits, phase>>
 
 F15(i, nm, sz, lt) == N(i, 0, "file", nm, Runs(sz, 0), 420, 0, 0, T0 + i, lt, -3)
 W15 == [nodes |-> << F15(1, <<"a","a">>, 12, 0), F15(2, <<"b","b","b">>, 7, 0), F15(3, <<"c","c">>, 7, 2),
-                     F15(4, <<"d","d","d","d">>, 100, 0), F15(5, <<"e">>, 0, 0), F15(6, <<"f","f","f","f","f">>, 3, 0) >>]
+                     F15(4, <<"d","d","d","d">>, 100, 0), F15(5, <<"e">>, 0, 0), F15(6, <<"f","f","f","f","f">>, 3, 0),
+                     [F15(7, <<"g","g">>, 0, 0) EXCEPT !.content = Runs(5, 3)] >>]
 
 Leaves6 == {"2", "3", "10", "size", "hardlinks", "length(name)"}
 Leaves3 == {"2", "3", "size"}
@@ -32,9 +33,14 @@ Negs == { <<"neg", a>> : a \in Leaves6 } \cup { <<o, <<"neg">>[1], a, b>> : o \i
         \cup { <<"neg", "neg", a>> : a \in {"size", "3", "length(name)"} }
         \cup { <<"neg", "neg", "+", "size", "1">>, <<"-", "10", "neg", "neg", "3">>, <<"neg", "neg", "neg", "size">>, <<"*", "neg", "neg", "size", "2">> }
 
+(* written without blanks (`line_count+1`, `2*size`): one operator, columns with and without an underscore in their names *)
+Tight == { <<o, a, b>> : o \in {"+", "-", "*"}, a \in {"size", "hardlinks", "line_count"}, b \in {"1", "2", "line_count"} }
+         \cup { <<o, "2", b>> : o \in {"+", "*"}, b \in {"size", "line_count"} }
 Init == kind = "" /\ exprs = <<>> /\ wop = "" /\ wlit = 0 /\ style = "min" /\ lits = <<>> /\ phase = "start"
 ChooseOne == /\ phase = "start" /\ kind' = "one" /\ \E e \in One \cup TwoL \cup TwoR \cup Negs : exprs' = <<e>>
              /\ style' \in {"min", "full"} /\ wop' = "" /\ wlit' = 0 /\ phase' = "done"
+ChooseTight == /\ phase = "start" /\ kind' = "one" /\ \E e \in Tight : exprs' = <<e>>
+               /\ style' = "tight" /\ wop' = "" /\ wlit' = 0 /\ phase' = "done"
 ChoosePairOp == /\ phase = "start" /\ kind' = "pairop"
                 /\ \E a \in Leaves6, b \in Leaves6, o1 \in BinOps, o2 \in BinOps : o1 # o2 /\ exprs' = << <<o1, a, b>>, <<o2, a, b>> >>
                 /\ style' = "min" /\ wop' = "" /\ wlit' = 0 /\ phase' = "done"
@@ -69,7 +75,7 @@ ChooseBig == /\ phase = "start" /\ kind' = "bigproduct" /\ exprs' = <<>> /\ lits
 ChooseKeyText == /\ phase = "start" /\ kind' \in {"keytext-after", "keytext-before"}
                  /\ exprs' = << <<"size">>, <<"+", "size", "1">>, <<"length(name)">>, <<"hardlinks">> >> /\ lits' = KeyTexts
                  /\ style' = "min" /\ wop' = "" /\ wlit' = 0 /\ phase' = "done"
-Next == ((ChooseOne \/ ChoosePairOp \/ ChoosePairBr \/ ChooseWhere \/ ChooseList) /\ lits' = <<>>) \/ ChooseKeyText \/ ChooseArgText \/ ChooseBig
+Next == ((ChooseOne \/ ChooseTight \/ ChoosePairOp \/ ChoosePairBr \/ ChooseWhere \/ ChooseList) /\ lits' = <<>>) \/ ChooseKeyText \/ ChooseArgText \/ ChooseBig
 Spec == Init /\ [][Next]_vars
 
 RECURSIVE ColsText(_)
